@@ -321,6 +321,26 @@ func TestC18(t *testing.T) {
 	}
 	http.DefaultTransport = &vfhTransport{real: http.DefaultTransport, script: script, refused: refused}
 
+	if prov, mode, names, _, ok := vfReplayCase(r); ok {
+		if seq, known := vfSymbols(names, vfhNames[:]); prov == "http_endpoint" && known {
+			st := &vfStats{}
+			if mode == "direct" {
+				if eps, err := vfhEndpoints(srv.URL, "/replay/e1", "/replay/e2"); err == nil {
+					cch, _ := memory.NewCache(nil, nil, nil)
+					logger := zerolog.Nop()
+					ctx := logger.WithContext(cache.WithContext(context.Background(), cch))
+					w := &vfhWorld{script: script, eps: map[string]*vfhEndpointState{"e1": {path: "/replay/e1", ep: eps[0]}, "e2": {path: "/replay/e2", ep: eps[1]}}}
+					w.eps["e1"].cur, w.eps["e2"].cur = vfhOutcome{kind: vfh404}, vfhOutcome{kind: vfh404}
+					vfhRunDirect(r, ctx, w, seq, st)
+				}
+			} else {
+				vfhRunPoll(r, script, srv.URL, 0, seq, st)
+			}
+			r.Eval(1)
+			vfFlushStats(r, st)
+		}
+		r.End()
+	}
 	if pf := os.Getenv("VERIF_CPUPROFILE"); pf != "" { // development aid
 		if f, err := os.Create(pf); err == nil {
 			_ = pprof.StartCPUProfile(f)
